@@ -68,7 +68,7 @@ def cases(tier, rng):
 def oracle(case, r):
     if 'harness_exc' in r:
         return 'real code raised: ' + r['harness_exc']
-    if case['kind'] != 'mux' or r.get('raised'):
+    if case['kind'] != 'mux' or r.get('raised') or muxprop.has_fatal(r['chunks']):
         return None
     v = splitoracle.check_sites(case['term'], case['items'], r.get('bounds') or {}, ('roll',))
     if v:
